@@ -297,7 +297,11 @@ def build(kind: str, sc: Scene):
         return [cyl, ring, ring2], [[cyl], [ring], [ring2]], [(0, 1, 16), (1, 2, 16), (0, 2, 0)], 34 + 16 + 16, None
     if kind == "fill_contract":
         ring = cb.ExtrudedRing(P([0, 0, 0]), P([0, 0, h]), P([2 * r, 0, 0]), 1.2 * r * s, 8)
-        inner = cb.ExtrudedRing.contract(ring, 0.7 * r * s)
+        # (every other source is resized and moved after it was built: what is chained / contracted / filled is the shape as it is)
+        k = rng.choice([1.0, 0.5, 2.0])
+        if k != 1.0:
+            ring.scale(k, P([0.3, -0.2, 0.1])).rotate(0.4, V([0.2, 1.0, 0.3]), P([0, 0, 0]))
+        inner = cb.ExtrudedRing.contract(ring, 0.7 * r * s * k)
         cyl = cb.Cylinder.fill(inner)
         chop_round(ring)
         inner.chop_radial(count=2)
@@ -306,6 +310,9 @@ def build(kind: str, sc: Scene):
     if kind == "ring_chain":
         n = rng.choice([4, 6, 8])
         ring = cb.ExtrudedRing(P([0, 0, 0]), P([0, 0, h]), P([2 * r, 0, 0]), r * s, n)
+        k = rng.choice([1.0, 0.5, 2.0])
+        if k != 1.0:
+            ring.scale(k, P([0.3, -0.2, 0.1])).rotate(0.4, V([0.2, 1.0, 0.3]), P([0, 0, 0]))
         nxt = cb.ExtrudedRing.chain(ring, rng.uniform(0.5, 2) * s)
         prev = cb.ExtrudedRing.chain(ring, rng.uniform(0.5, 2) * s, start_face=True)
         chop_round(ring)
